@@ -111,6 +111,7 @@ func (s *SequentialPopulationEpochExecutor) VFinalize(ctx context.Context, p *Po
 }
 func (s *SequentialPopulationEpochExecutor) VSortedSpecies() []*Species { return s.sortedSpecies }
 func (s *SequentialPopulationEpochExecutor) VBestSpeciesId() int        { return s.bestSpeciesId }
+func (s *SequentialPopulationEpochExecutor) VSetBestReproduced(b bool)  { s.bestSpeciesReproduced = b }
 
 func (p *ParallelPopulationEpochExecutor) VPrepare(ctx context.Context, generation int, pop *Population) error {
 	p.sequential = &SequentialPopulationEpochExecutor{}
